@@ -215,8 +215,24 @@ static int sw(int a, int v)
    return (v);;
 }
 '''
+OC_PROPERTIES = b'''@class NSString;
+@protocol Dlg;
+@interface Cell : Root
+@property (nonatomic, unsafe_unretained) id delegate;
+@property (nonatomic, copy, readonly) NSString *title;
+@property (nonatomic, assign, getter=isOn) int on;
+@property (atomic, strong, readwrite, nullable) id strongOne;
+@property (weak, nonatomic, null_resettable) id weakOne;
+@property (setter=setThing:, getter=thing, retain, nonnull) id thing;
+@property (class, readonly, nonatomic) int counter;
+@property (readonly) int bare;
+@property (nonatomic, null_unspecified, copy) id<Dlg> dlg;
+@property int none;
+@end
+'''
 HOSTS = {
     'C': progen.C_PREAMBLE + SWITCH_SHAPES,
+    'OC': progen.OC_PREAMBLE + OC_PROPERTIES + b'static int negoc(int v) { return -v; }\n' + SWITCH_SHAPES.replace(b'neg(', b'negoc('),
     'CPP': progen.CPP_PREAMBLE + b'static int neg(int v) { return -v; }\n' + SWITCH_SHAPES,
     'JAVA': b'''import java.util.Map;
 import java.util.List;
